@@ -17,7 +17,15 @@
                                                any number of times, to any node but the
                                                sender, arbitrarily late; SNet replaces the
                                                pool by any list drawn from it: loss,
-                                               duplication, reordering)
+                                               duplication, reordering; requests may also
+                                               be TRUNCATED by the network: STrunc adds to
+                                               the pool a copy of a request of the pool
+                                               that carries any prefix of its entries, so
+                                               any prefix of the entries of a request in
+                                               the pool may be delivered: a follower that
+                                               consumed k whole entries before the
+                                               connection broke handled them exactly as a
+                                               request carrying only them)
      acks     successful AppendEntries / InstallSnapshot replies
                                               (consumed at most once, may be lost)
    Vote requests are the ghost [started]: a request (t, c, log of c when it
@@ -303,6 +311,15 @@ Definition do_net_appends (l' : list areq) (s : state) : state :=
   mkS (st s) (grants s) l' (acks s) (votes s) (started s)
       (elected s) (created s) (acked s) (committed s).
 
+(* the network cuts request m after k whole entries: the follower sees the request with only the
+   first k entries (same header, same announced commit index) *)
+Definition trunc_req (m : areq) (k : nat) : areq :=
+  mkReq (rterm m) (rldr m) (rprevIdx m) (rprevTerm m) (firstn k (rents m)) (rcommit m).
+
+Definition do_trunc (m : areq) (k : nat) (s : state) : state :=
+  mkS (st s) (grants s) (trunc_req m k :: appends s) (acks s) (votes s) (started s)
+      (elected s) (created s) (acked s) (committed s).
+
 Definition do_drop_ack (a : aack) (s : state) : state :=
   mkS (st s) (grants s) (appends s) (remove1 aeqb a (acks s)) (votes s) (started s)
       (elected s) (created s) (acked s) (committed s).
@@ -398,7 +415,10 @@ Inductive step (s : state) : state -> Prop :=
     lastTerm K2 <= t ->
     chosen s (lastTerm K2) (length K2) ->
     (commit (st s f) <= c <= Nat.max (commit (st s f)) (length K))%nat ->
-    step s (do_install f t l K K2 c s).
+    step s (do_install f t l K K2 c s)
+| STrunc : forall m k,
+    In m (appends s) ->
+    step s (do_trunc m k s).
 
 Inductive Reachable : state -> Prop :=
 | R_init : Reachable init
